@@ -13,7 +13,7 @@ RULE = ("Restricted networks: queue capacities {0,1,2} (and inf), fixed servers 
         "longest-blocked ones; Ciw's blocked_queue equals the model; time_blocked equals the monitor's own timestamps; a blocked "
         "customer never completes again.  Non-trivial: >= 1 block and >= 1 unblock; distinct by spec digest.")
 ASSUMPTIONS = ["capacity of a destination = queue capacity + servers from the spec (fixed-server nodes)"]
-TECHNIQUE = 'property-based testing: generated restricted networks with a model of the blocking order (model-based oracle), cascade-heavy profile, and a differential independent reference simulator on tie-free deterministic inputs'
+TECHNIQUE = 'property-based testing: generated networks with a model of the blocking order (model-based oracle; restricted, cascade, over-full and slotted-blocker profiles; entry order within an event from the log of the observing node) and a differential independent reference simulator on tie-free deterministic inputs'
 WALL = {"quick": 150, "thorough": 540}
 
 ALLOWED = ["inf", "schedule", "capacity", "priorities", "reneging", "jockeying", "batching", "cc_after", "cc_waiting", "discipline",
